@@ -63,6 +63,23 @@ def gen_cases(seed: int, n: int, *, nphases=4, watch_p=0.0, features=None, nwork
     return cases
 
 
+def during_cases(seed: int) -> list[dict]:
+    """A source is modified while the first build runs, at every early idle point, with and without keep-going."""
+    cases = []
+    for name, path in (("chain", "s1.txt"), ("chain", "s2.txt"), ("resources", "s1.txt")):
+        proj = SHAPES[name]()
+        if path not in proj["sources"] or len(proj["sources"][path]) < 2:
+            continue
+        for kg in (False, True):
+            for k in range(3, 26, 2):
+                cfg = {"njob": 2, "resources": "gpu:2,tpu:2", "keep_going": kg}
+                ph = initial_phase(proj, cfg=cfg, seed=seed * 31 + k)
+                ph["during"] = [[k, ["set" if k % 4 else "swap", path, proj["sources"][path][1]]]]
+                cases.append({"tid": f"during-{name}-{path}-{int(kg)}-{k}", "project": proj,
+                              "phases": [ph, {"edits": [], "how": "restart", "cfg": cfg, "seed": seed + k}]})
+    return cases
+
+
 def shape_cases(names=None, seeds=(0, 1, 2), cfgs=None, slow_variants=True) -> list[dict]:
     cases = []
     cfgs = cfgs or [{"njob": 2, "resources": "gpu:2"}]
